@@ -6,6 +6,7 @@ import (
 	"os"
 	"path/filepath"
 	"strings"
+	"time"
 
 	"github.com/klev-dev/klevdb"
 )
@@ -163,6 +164,14 @@ func hooksC20() Hooks {
 			// file; no property speaks about that case: have the indexes rebuilt first
 			_ = Observe(r.L, q)
 			r.probe("offline_backup_after_index_rebuild")
+		}
+		if existed {
+			// Backup skips a file whose size and modification time equal the target's. File times
+			// come from the real clock: behind a seam here - before a repeated backup every source
+			// file with a counterpart in the target gets either the counterpart's time (a clock too
+			// coarse to tell the writes apart) or a later one, as the plan's random source decides
+			c20SetTimes(r.Dir, tgt, r.Obs.Bool())
+			r.probe("backup_repeated_file_times_set")
 		}
 		src0 := snapDir(r.Dir)
 		var err error
@@ -346,7 +355,7 @@ func genPlanC19(def *PropDef, tier string, seed uint64, run int64) *Plan {
 			add(Op{K: "ro_damage_probe", A: int64(rng.Intn(3)), B: int64(rng.Intn(4))})
 		}
 		if rng.Chance(35) {
-			add(Op{K: "fail_open", A: int64(rng.Intn(2)), B: int64(rng.Range(1, 3)), C: int64(rng.Pick(20, 50, 10, 20))})
+			add(Op{K: "fail_open", A: int64(rng.Intn(2)), B: int64(rng.Range(1, 4)), C: int64(rng.Pick(20, 50, 10, 20))})
 		}
 		if rng.Chance(35) {
 			if rng.Chance(40) {
@@ -713,7 +722,8 @@ func c19LogsUnchanged(r *Run, s *c19State) {
 // succeed, one it forbids must still fail.
 //
 //	op.A: mode of the failing open (0 rw, 1 ro); op.B: 1 missing directory, 2 index header
-//	with wrong flags, 3 unaligned index
+//	with wrong flags, 3 unaligned index, 4 a file in the directory whose name ends in .log
+//	without being an offset (the listing of the segments fails before anything is opened)
 func c19FailOpen(r *Run, s *c19State, op *Op) {
 	ro := op.A == 1
 	o := r.OOpts
@@ -747,6 +757,10 @@ func c19FailOpen(r *Run, s *c19State, op *Op) {
 		}
 		r.probe("open_failed_missing_dir")
 	default:
+		if kind == 4 {
+			c19FailOpenStray(r, ro, blocking, opts)
+			return
+		}
 		files := indexFiles(r.Dir)
 		if len(files) == 0 {
 			return
@@ -984,4 +998,86 @@ func c19DamageProbe(r *Run, s *c19State, op *Op) {
 		return
 	}
 	_ = guard(func() error { return wl.Close() })
+}
+
+// c19FailOpenStray: an Open that fails while the segments are listed (a file named like a log
+// without an offset in its name, as a copy made by hand leaves it) must release the lock too.
+// Nothing is open when this runs; the file is removed again before the lock is tested.
+func c19FailOpenStray(r *Run, ro, blocking bool, opts klevdb.Options) {
+	if _, err := os.Stat(r.Dir); err != nil {
+		return
+	}
+	stray := filepath.Join(r.Dir, "backup.log")
+	if err := os.WriteFile(stray, nil, 0o600); err != nil {
+		panic(infraErr{err})
+	}
+	var l klevdb.Log
+	err := guard(func() error {
+		var e error
+		if blocking {
+			var bl klevdb.BlockingLog
+			bl, e = klevdb.OpenBlocking(r.Dir, opts)
+			if e == nil {
+				l = bl
+			}
+			return e
+		}
+		l, e = klevdb.Open(r.Dir, opts)
+		return e
+	})
+	if rerr := os.Remove(stray); rerr != nil {
+		panic(infraErr{rerr})
+	}
+	r.logf("fail_open kind=4 ro=%v err=%v", ro, errStr(err))
+	if err == nil {
+		// the property does not say that such a file must make Open fail
+		_ = guard(func() error { return l.Close() })
+		return
+	}
+	if _, ok := err.(*panicErr); ok {
+		r.violate("Open|stray-file|panic", "Open of a directory with a stray *.log file panicked: %v", err)
+		return
+	}
+	r.probe("open_failed_stray_file")
+	for _, mode := range []bool{false, true} {
+		oo := r.OOpts
+		oo.Readonly, oo.Check, oo.Recover, oo.Eager = mode, false, false, false
+		var l2 klevdb.Log
+		err2 := guard(func() error {
+			var e error
+			l2, e = klevdb.Open(r.Dir, oo.K(&r.P.Cfg))
+			return e
+		})
+		if err2 != nil {
+			r.violate("Open|after-failed-open|"+errKind(err2)+"|failed-mode="+map[bool]string{false: "rw", true: "ro"}[ro], "after an Open (readonly=%v, blocking=%v) that failed with %q while listing the segments, Open(readonly=%v) of the directory without the stray file failed: %v", ro, blocking, err, mode, err2)
+			return
+		}
+		_ = guard(func() error { return l2.Close() })
+	}
+	r.probe("lock_released_after_failed_open")
+}
+
+// c20SetTimes gives every file of src that also exists in tgt the modification time of its
+// counterpart (coarse) or that time plus one second.
+func c20SetTimes(src, tgt string, coarse bool) {
+	ents, err := os.ReadDir(src)
+	if err != nil {
+		panic(infraErr{err})
+	}
+	for _, e := range ents {
+		if !e.Type().IsRegular() {
+			continue
+		}
+		st, err := os.Stat(filepath.Join(tgt, e.Name()))
+		if err != nil {
+			continue
+		}
+		t := st.ModTime()
+		if !coarse {
+			t = t.Add(time.Second)
+		}
+		if err := os.Chtimes(filepath.Join(src, e.Name()), t, t); err != nil {
+			panic(infraErr{err})
+		}
+	}
 }
